@@ -263,6 +263,7 @@ def run_case(idx, rng, tier, rep):
     for name in ('c', 's'):
         cfgs[name] = {'header_encoding': rng.choice([None, None, 'utf-8']), 'normalize_inbound_headers': rng.random() < 0.8}
     d = duet.Duet(ccfg=cfgs['c'], scfg=cfgs['s'])
+    d.c.watch_events = d.s.watch_events = True
     upgraded = rng.random() < 0.12
     if upgraded:
         # h2c upgrade: stream 1 exists from the start, half-closed (local) at the client and half-closed (remote) at the server
@@ -910,6 +911,15 @@ def run_case(idx, rng, tier, rep):
             if queue[dirn] and not sides[y].retired:
                 fail('C01:messages-never-arrived', '%d messages still undelivered after draining %s' % (len(queue[dirn]), dirn))
                 break
+    # what was delivered stays delivered: event lists returned earlier must still read as they did when they were returned
+    for y in ('c', 's'):
+        tap = d.tap(y)
+        rep.count('returned_event_lists_reread_at_end', len(tap.returned))
+        ch = tap.changed_after_return()
+        if ch and st['alive']:
+            i, then, now = ch[0]
+            fail('C01:delivered-events-changed-after-delivery', 'the event list returned by receive_data call #%d of %s read %s when it '
+                 'was returned and reads %s at the end of the case' % (i, y, then[:300], now[:300]))
     if st['compared'] >= 10 and st['midframe'] >= 1:
         rep.nontrivial(tuple(str(o) for o in ops))
     if idx % 499 == 0:
